@@ -1,6 +1,7 @@
 import Mimium.Model.Pretty
 import Mimium.Model.NewlineRule
 import Mimium.Model.CstPrintSpec
+import Mimium.Model.CstStrict
 import Mimium.Model.CstGrammar
 import Mimium.Model.LexerIO
 /-! `drv_c14`: line protocol driver for C14 (layout-engine model).
@@ -8,7 +9,7 @@ Input line: `width \t tree [\t anything]`; output line: hex of the UTF-8 bytes o
 `\t` number of newline pieces `\t` number of content pieces.
 `F \t hex(src) \t classes \t widths \t cfgs [\t show]`: the ported formatter (tokenizer + preparse + grammar + `Model/CstPrint.lean` +
 layout engine) on a source text; `widths` = `i:w,…` display width of every non-ASCII raw token (`-` if none), `cfgs` = `width:indent,…`;
-answer `ok \t fnv64 of the output per configuration \t #leaves \t keepsAll \t kind of the first node outside the class \t content = expected` (with `show`: hex of the outputs instead of hashes) or `ERR` when the
+answer `ok \t fnv64 of the output per configuration \t #leaves \t keepsAll \t kind of the first node outside the class \t content = expected \t strictTree \t only covered kinds \t keepsAllOn covered` (with `show`: hex of the outputs instead of hashes) or `ERR` when the
 ported parser reports a syntax error (the real `pretty_print` returns `Err`).
 Tree syntax (no spaces): `N` nil, `H` hardline, `T<len>:<hex>.` text, `A(l,r)` append, `F(b,f)` flat_alt,
 `G(d)` group, `E<off>(d)` nest (offset may be negative). -/
@@ -152,7 +153,10 @@ def fmtLine (hex cls wids cfgs : String) (shw : Bool) : String :=
         let loss := match CstPrint.firstLoss cx root with
           | some k => Gen.skNames.getD k "?"
           | none => "-"
-        s!"ok\t{body}\t{sd.leaves.length}\t{if keeps then 1 else 0}\t{loss}\t{if same then 1 else 0}"
+        let strict := CstPrint.strictTree cx root
+        let cov := CstPrint.usesOnly CstPrint.covered root
+        let keepsOn := CstPrint.keepsAllOn CstPrint.covered cx root
+        s!"ok\t{body}\t{sd.leaves.length}\t{if keeps then 1 else 0}\t{loss}\t{if same then 1 else 0}\t{if strict then 1 else 0}\t{if cov then 1 else 0}\t{if keepsOn then 1 else 0}"
 
 def c14Line (line : String) : String :=
   match line.splitOn "\t" with
